@@ -1,7 +1,7 @@
 /-
   C16 — String behaves as a C-string value.
 
-  Property theorems only; helper lemmas are in CelloProofs/Lemmas/Str.lean, StrOps.lean, StrRun.lean.
+  Property theorems only; helper lemmas are in CelloProofs/Lemmas/Str.lean, StrOps.lean, StrRun.lean, StrPrint.lean.
   Model: Cello/Str.lean — `Str.buf` is the heap allocation of a String (its length = the size last passed to
   realloc/calloc); every operation mirrors src/String.c call by call over that buffer and logs every access
   (offset, length, size of the allocation at that moment).  Spec: `Str.abs` — the byte list up to the first NUL —
@@ -14,6 +14,7 @@ import Cello.Str
 import CelloGen.Str
 import CelloProofs.Lemmas.StrRun
 import CelloProofs.Lemmas.StrBytes
+import CelloProofs.Lemmas.StrPrint
 
 namespace Cello.Str
 
@@ -245,7 +246,8 @@ theorem C16_current_source : CelloGen.Str.params.Lawful :=
    fun ls lp lo h => by simp only [CelloGen.Str.params, CelloGen.Str.remCount]⟩
 
 /-- the shape of each function (which libc calls, on which arguments, in which order) is the one modelled -/
-theorem C16_source_shape_as_modelled : CelloGen.Str.shape = CelloGen.Str.shapeModelled := by decide
+theorem C16_source_shape_as_modelled : CelloGen.Str.shape = CelloGen.Str.shapeModelled := by
+  rfl
 
 /-- C16 for the code as it is in /repo now (sizes and count read from the source by the translator). -/
 theorem C16_holds_for_current_source (J : Nat → Byte) (init : Option (List Byte))
@@ -256,6 +258,192 @@ theorem C16_holds_for_current_source (J : Nat → Byte) (init : Option (List Byt
       r.st.buf[len r.st]? = some 0 ∧ len r.st < r.st.cap ∧ r.log.all Acc.inBounds = true :=
   ⟨(C16_refines_bytes C16_current_source J init hinit ops hops).1,
    fun r hr => let h := (C16_terminated C16_current_source J init hinit ops hops).2.2 r hr; ⟨h.1, h.2.1, h.2.2.1⟩⟩
+
+/-! ### formatted writes that reach the String through `print_to_with` / `show_to` (src/Show.c) -/
+
+/-- **Formatted writes through `print_to` / `print_to_with` / `show_to`: the position is the end of the text.**
+    For lawful sizes and lawful position arithmetic, from any well-formed String, any start `pos ≤ len` and any sequence of
+    steps `print_to_with` can make (literal runs, `%%`, conversions, `show_to` of any depth, every `format_to` reallocating):
+    if at least one `format_to` call is made, the String's value is `take pos old ++ everything written`; the position handed
+    back is `pos +` the number of characters written AND is the new `len` (nothing lies behind the terminator that the
+    position claims was written); the buffer is NUL-terminated at that `len` inside its allocation; every access was in
+    bounds; and `cmp`, `eq`, `mem`, `hash` agree with the list functions on that value. -/
+theorem C16_print_positions {P : Params} (hP : P.Lawful) {Q : PosParams} (hQ : Q.Lawful) (J : Nat → Byte)
+    (s : Str) (hs : s.WF) (pos : Nat) (hpos : pos ≤ s.abs.length) (stk : List Nat)
+    (items : List Item) (hok : ∀ it ∈ items, it.OK) (hne : callTexts items ≠ []) :
+    let r := emit P Q J s pos stk items
+    let a := s.abs.take pos ++ textOf items
+    r.1.abs = a ∧ r.2.1 = pos + (textOf items).length ∧ r.2.1 = len r.1 ∧
+    r.1.buf[len r.1]? = some 0 ∧ len r.1 < r.1.cap ∧ r.2.2.all Acc.inBounds = true ∧
+    (∀ x, NulFree x → cmp r.1 x = lexCmp a x ∧ (eq r.1 x = true ↔ a = x) ∧ (mem r.1 x = true ↔ x <:+: a)) ∧
+    (∀ {β : Type} (H : List Byte → β), hash H r.1 = H a) := by
+  intro r a
+  obtain ⟨hwf, habs, _, hret, hsafe⟩ := emit_ok hP hQ J items s pos stk hs hpos hok
+  have ha : r.1.abs = a := habs hne
+  have hlen : r.2.1 = len r.1 := by
+    rw [len_eq, ha, hret]; simp [a, Nat.min_eq_left hpos]
+  refine ⟨ha, hret, hlen, (terminated_of_wf hwf).1, (terminated_of_wf hwf).2, hsafe, ?_, ?_⟩
+  · intro x hx
+    exact ⟨by rw [cmp_eq hwf hx, ha], by rw [eq_iff hwf hx, ha], by rw [mem_iff, ha]⟩
+  · intro β H; rw [hash_eq H hwf, ha]
+
+/-- a `print_to_with` that makes no `format_to` call (the empty format) leaves the object alone and returns `pos` -/
+theorem C16_print_nothing (P : Params) {Q : PosParams} (hQ : Q.Lawful) (J : Nat → Byte) (s : Str) (pos : Nat)
+    (stk : List Nat) (items : List Item) (hok : ∀ it ∈ items, it.OK) (hno : callTexts items = []) :
+    emit P Q J s pos stk items = (s, pos, []) := by
+  rw [emit_eq_printTo P hQ J items s pos stk hok, hno]; rfl
+
+/-- **… for every well-formed format and argument list.**  `printFmt` is `print_to_with(s, pos, fmt, args)` on a String
+    target: the format (a C string) is cut into literal runs, `%%` and specifications the way the scanner reads it
+    (`parseFmt`), every specification takes the next argument, `prim` is what libc prints for one specification and `shw` the
+    steps the argument's Show instance makes (both arbitrary, as long as they print C strings).  Whenever that is defined —
+    the format is well-formed and every specification finds an argument of its class — the result is as in
+    `C16_print_positions`: value `take pos old ++ rendered output`, NUL-terminated at the new `len`, returned position
+    `pos + length written`, all accesses in bounds. -/
+theorem C16_print_format {α : Type} {P : Params} (hP : P.Lawful) {Q : PosParams} (hQ : Q.Lawful) (J : Nat → Byte)
+    (prim : List Byte → Byte → α → Option (List Byte)) (shw : α → List Item)
+    (s : Str) (hs : s.WF) (pos : Nat) (hpos : pos ≤ s.abs.length) (fmt : List Byte) (hfmt : NulFree fmt) (args : List α)
+    (hprim : ∀ a ∈ args, ∀ b c t, prim b c a = some t → NulFree t) (hshw : ∀ a ∈ args, ∀ it ∈ shw a, it.OK)
+    (r : Str × Nat × List Acc) (hr : printFmt P Q J prim shw s pos fmt args = some r) :
+    ∃ segs items, parseFmt fmt = some segs ∧ plan prim shw segs args = some items ∧ (∀ it ∈ items, it.OK) ∧
+      r = emit P Q J s pos [] items ∧
+      r.1.WF ∧ r.1.buf[len r.1]? = some 0 ∧ len r.1 < r.1.cap ∧
+      (callTexts items ≠ [] → r.1.abs = s.abs.take pos ++ textOf items ∧ r.2.1 = len r.1) ∧
+      (callTexts items = [] → r.1 = s) ∧
+      r.2.1 = pos + (textOf items).length ∧ r.2.2.all Acc.inBounds = true := by
+  unfold printFmt at hr
+  split at hr
+  · cases hr
+  · rename_i segs hseg
+    obtain ⟨items, hplan, rfl⟩ := Option.map_eq_some_iff.mp hr
+    have hok := plan_ok prim shw segs args items hprim hshw (parseFmt_lit_nulFree hfmt hseg) hplan
+    obtain ⟨hwf, habs, hsame, hret, hsafe⟩ := emit_ok hP hQ J items s pos [] hs hpos hok
+    refine ⟨segs, items, hseg, hplan, hok, rfl, hwf, (terminated_of_wf hwf).1, (terminated_of_wf hwf).2, ?_, hsame, hret, hsafe⟩
+    intro hne
+    exact ⟨habs hne, (C16_print_positions hP hQ J s hs pos hpos [] items hok hne).2.2.1⟩
+
+/-- **A formatted write through `print_to_with` is a history of `format_to` operations**, one per call, at positions
+    advancing by what was written — so histories that contain `print_to` / `show_to` are covered by `C16_refines_bytes`
+    and `C16_terminated` (the object and the access log are the same). -/
+theorem C16_print_is_format_history (P : Params) {Q : PosParams} (hQ : Q.Lawful) (J : Nat → Byte) (s : Str) (pos : Nat)
+    (stk : List Nat) (items : List Item) (hok : ∀ it ∈ items, it.OK) :
+    (emit P Q J s pos stk items).1 = (run P J s (asFormats pos items)).1 ∧
+    (emit P Q J s pos stk items).2.2 = ((run P J s (asFormats pos items)).2.map Res.log).flatten ∧
+    ∀ op ∈ asFormats pos items, op.NulFree := by
+  rw [emit_eq_printTo P hQ J items s pos stk hok]
+  exact ⟨(printTo_eq_run P J items s pos).1, (printTo_eq_run P J items s pos).2, asFormats_nulFree items pos hok⟩
+
+/-- **The built-in arguments**: the steps of `Int_Show`, `String_Show` and `Tuple_Show` (to any depth) are well-formed and
+    every specification of the rendered part of the printf grammar prints a C string, whenever the Strings inside the
+    argument are C strings; the executable check the driver runs on every step list is the predicate of the theorems. -/
+theorem C16_builtin_arguments :
+    (∀ v : Val, v.nulFree = true → ∀ it ∈ showVal v, it.OK) ∧
+    (∀ (b : List Byte) (c : Byte) (v : Val) (t : List Byte), v.nulFree = true → renderSpec b c v = some t → NulFree t) ∧
+    (∀ it : Item, it.okb = true ↔ it.OK) :=
+  ⟨showVal_ok, fun b c v t hv h => renderSpec_nulFree b c v hv t h, Item.okb_iff⟩
+
+/-- **The position arithmetic of the current source is lawful**: the translator reads, for every `format_to` call of
+    `print_to_with` (src/Show.c), the statement that moves `pos` afterwards, and the statement that takes the result of
+    `show_to`; each must move the position by exactly what `format_to` returned (`off` = the characters written: a literal run
+    verbatim, one `%` for `%%`).  If a branch advances by anything else — `pos += 2` for `%%`, the width of the specification
+    instead of the text, a forgotten update — this theorem stops type-checking. -/
+theorem C16_current_source_positions : CelloGen.Str.posParams.Lawful :=
+  ⟨fun pos off => by simp only [CelloGen.Str.posParams, CelloGen.Str.advLit] <;> omega,
+   fun pos => by simp only [CelloGen.Str.posParams, CelloGen.Str.advPct] <;> omega,
+   fun br h1 h2 pos off w => by
+     cases br
+     · exact absurd rfl h1
+     · exact absurd rfl h2
+     all_goals
+       simp only [CelloGen.Str.posParams, CelloGen.Str.advStr, CelloGen.Str.advInt, CelloGen.Str.advFlt,
+         CelloGen.Str.advChr, CelloGen.Str.advPtr] <;> omega,
+   fun pos ret => by simp only [CelloGen.Str.posParams, CelloGen.Str.showPos] <;> omega⟩
+
+/-- the `strchr` set that ends a specification in the source is the one `parseFmt` uses -/
+theorem C16_conv_set_as_modelled : CelloGen.Str.printConvSet = convSet := by decide
+
+/-- **A position that runs ahead of the bytes written breaks the String**: with `pos += 2` in the `%%` branch (the width of
+    `%%` in the format instead of the one character `format_to` wrote) `print_to(s, 0, "100%% done")` leaves the value
+    `"100%"`, the rest lands behind the terminator, and the returned position 10 is not the `len` 4 — the model follows the
+    arithmetic of the source, so `C16_print_positions` is not true by construction; the modelled arithmetic gives
+    `"100% done"` and 9. -/
+theorem C16_percent_position_refuted :
+    let Q' : PosParams := { PosParams.modelled with adv := fun br pos off _ => if br = .pct then pos + 2 else pos + off }
+    let items : List Item := [.call .lit 3 [49, 48, 48], .call .pct 2 [37], .call .lit 5 [32, 100, 111, 110, 101]]
+    (∀ it ∈ items, it.okb = true) ∧
+    (emit .modelled Q' (fun _ => 165) ⟨[0]⟩ 0 [] items).1.abs = [49, 48, 48, 37] ∧
+    (emit .modelled Q' (fun _ => 165) ⟨[0]⟩ 0 [] items).2.1 = 10 ∧
+    (emit .modelled Q' (fun _ => 165) ⟨[0]⟩ 0 [] items).1.buf = [49, 48, 48, 37, 0, 32, 100, 111, 110, 101, 0] ∧
+    ¬ Q'.Lawful ∧
+    (emit .modelled .modelled (fun _ => 165) ⟨[0]⟩ 0 [] items).1.buf = [49, 48, 48, 37, 32, 100, 111, 110, 101, 0] ∧
+    (emit .modelled .modelled (fun _ => 165) ⟨[0]⟩ 0 [] items).2.1 = 9 := by
+  refine ⟨by decide, by decide, by decide, by decide, ?_, by decide, by decide⟩
+  intro h
+  have := h.pct 0
+  simp at this
+
+/-- **C16 for formatted writes, for the code as it is in /repo now**: sizes from src/String.c, positions from src/Show.c,
+    built-in arguments (Int, String, Tuple to any depth) rendered as libc / the Show instances do. -/
+theorem C16_print_current_source (J : Nat → Byte) (s : Str) (hs : s.WF) (pos : Nat) (hpos : pos ≤ s.abs.length)
+    (fmt : List Byte) (hfmt : NulFree fmt) (args : List Val) (hargs : ∀ v ∈ args, v.nulFree = true)
+    (r : Str × Nat × List Acc)
+    (hr : printFmt CelloGen.Str.params CelloGen.Str.posParams J renderSpec showVal s pos fmt args = some r) :
+    ∃ items, (∀ it ∈ items, it.OK) ∧ r = emit CelloGen.Str.params CelloGen.Str.posParams J s pos [] items ∧
+      r.1.buf[len r.1]? = some 0 ∧ len r.1 < r.1.cap ∧ r.2.2.all Acc.inBounds = true ∧
+      r.2.1 = pos + (textOf items).length ∧
+      (callTexts items ≠ [] → r.1.abs = s.abs.take pos ++ textOf items ∧ r.2.1 = len r.1) ∧
+      (callTexts items = [] → r.1 = s) := by
+  obtain ⟨_, items, _, _, hok, he, _, ht, hc, h1, h2, h3, h4⟩ :=
+    C16_print_format C16_current_source C16_current_source_positions J renderSpec showVal s hs pos hpos fmt hfmt args
+      (fun v hv b c t h => renderSpec_nulFree b c v (hargs v hv) t h) (fun v hv => showVal_ok v (hargs v hv)) r hr
+  exact ⟨items, hok, he, ht, hc, h4, h3, h1, h2⟩
+
+/-- **Reading from a String at a position** (`scan_from(s, pos, …)` → `String_Format_From` → `vsscanf(s->val + pos, …)`):
+    for `pos ≤ len` the C string handed to libc is exactly the abstract string from `pos` on, so what is read back depends
+    on the value only. -/
+theorem C16_read_at_position (s : Str) (hs : s.WF) (pos : Nat) (hpos : pos ≤ s.abs.length) :
+    cstrAt s.buf pos = s.abs.drop pos ∧
+    scanWord s pos =
+      (let w := ((s.abs.drop pos).dropWhile isSpace).takeWhile (fun b => !isSpace b)
+       if w.isEmpty then none else some (w, pos + ((s.abs.drop pos).takeWhile isSpace).length + w.length)) := by
+  refine ⟨cstrAt_pos hs hpos, ?_⟩
+  simp only [scanWord, cstrAt_pos hs hpos]
+
+/-! ### the two repaired corners of src/String.c -/
+
+/-- **rem of an operand that has no C string** (e60e6ec: `String_Rem` begins with `char* sub = c_str(obj);`): ClassError,
+    and not a byte of the allocation is read or written; with a C string it is `rem`. -/
+theorem C16_rem_argument (P : Params) (s : Str) :
+    (remArg P s none).out = .raised .ClassError ∧ (remArg P s none).st = s ∧ (remArg P s none).log = [] ∧
+    ∀ x, remArg P s (some x) = rem P s x :=
+  ⟨rfl, rfl, rfl, fun _ => rfl⟩
+
+/-- before e60e6ec (`c = instance(obj, C_Str); if (c and c->c_str) { … }`) such an operand was silently ignored: the call
+    returned normally although nothing that could be removed was given -/
+theorem C16_rem_argument_old_refuted (P : Params) (s : Str) :
+    (remArgOld P s none).out = .ok 0 ∧ (remArgOld P s none).out ≠ (remArg P s none).out := by
+  refine ⟨rfl, ?_⟩
+  simp [remArgOld, remArg]
+
+/-- **A format the C library rejects** (a626877: `if (size < 0) { return size; }` right after the measuring `vsnprintf`):
+    `format_to` hands back the negative value, the object is untouched (no reallocation, no access); inside `print_to_with`
+    the `FormatError` leaves at that step — the object and the accesses are those of the steps before it, for any position
+    arithmetic. -/
+theorem C16_rejected_format (P : Params) (Q : PosParams) (J : Nat → Byte) (s : Str) (pos : Nat) :
+    (formatToR P J s pos none).st = s ∧ (formatToR P J s pos none).out = .rejected ∧ (formatToR P J s pos none).log = [] ∧
+    (∀ f, formatToR P J s pos (some f) = formatTo P J s pos f) ∧
+    ∀ (stk : List Nat) (br : Branch) (pre rest : List Item),
+      (emit P Q J s pos stk (pre ++ .rejected br :: rest)).1 = (emit P Q J s pos stk pre).1 ∧
+      (emit P Q J s pos stk (pre ++ .rejected br :: rest)).2.2 = (emit P Q J s pos stk pre).2.2 :=
+  ⟨rfl, rfl, rfl, fun _ => rfl, fun stk br pre rest => emit_rejected P Q J br rest pre s pos stk⟩
+
+/-- before a626877 the negative size went into `realloc(s->val, pos + size + 1)`: `"ab"` and a rejected format at `pos = 2`
+    left an allocation of 2 bytes without a terminator — not a C string any more -/
+theorem C16_rejected_format_old_refuted :
+    let s : Str := ⟨[97, 98, 0]⟩
+    ¬ (formatToROld .modelled (fun _ => 165) s 2 none).st.WF ∧
+    (formatToROld .modelled (fun _ => 165) s 2 none).st.buf = [97, 98] ∧
+    (formatToR .modelled (fun _ => 165) s 2 none).st = s := by decide
 
 /-! ### non-vacuity: concrete non-trivial states meet the hypotheses -/
 
@@ -278,5 +466,31 @@ example :
 example : ([97, 97, 97] : List Byte) = [] ++ [97, 97] ++ [97] ∧
     ∀ a' b' : List Byte, ([97, 97, 97] : List Byte) = a' ++ [97, 97] ++ b' → ([] : List Byte).length ≤ a'.length := by
   exact ⟨rfl, fun _ _ _ => Nat.zero_le _⟩
+
+/-- `C16_print_format` / `C16_print_current_source` are not vacuous: `print_to(s, 2, "%i%% %s:%$", 42, "all", tuple(1, "x"))`
+    on a String holding "abc" with a stale byte behind the terminator: well-formed format, three specifications, `%%`, a nested
+    `show_to`; the result is "ab" ++ "42% all:tuple(1, \"x\")" and the returned position 23 is its length -/
+example :
+    let s : Str := ⟨[97, 98, 99, 0, 7]⟩
+    let fmt : List Byte := [37, 105, 37, 37, 32, 37, 115, 58, 37, 36]
+    let args : List Val := [.int 42, .str [97, 108, 108], .tup [.int 1, .str [120]]]
+    s.WF ∧ 2 ≤ s.abs.length ∧ NulFree fmt ∧ (∀ v ∈ args, v.nulFree = true) ∧
+    (printFmt .modelled .modelled (fun _ => 165) renderSpec showVal s 2 fmt args).map (fun r => (r.1.abs, r.2.1, r.1.cap))
+      = some ([97, 98, 52, 50, 37, 32, 97, 108, 108, 58, 116, 117, 112, 108, 101, 40, 49, 44, 32, 34, 120, 34, 41], 23, 24) := by
+  decide
+
+/-- the steps of that call: literal, `%%`, conversions and the bracketed `show_to` (with its own nested `show_to`s) -/
+example :
+    (parseFmt [37, 105, 37, 37, 32, 37, 115, 58, 37, 36]).bind
+        (fun segs => plan renderSpec showVal segs [.int 42, .str [97, 108, 108], .tup [.int 1, .str [120]]]) =
+      some [.call .int 2 [52, 50], .call .pct 2 [37], .call .lit 1 [32], .call .str 2 [97, 108, 108], .call .lit 1 [58],
+        .enter, .call .lit 6 [116, 117, 112, 108, 101, 40], .enter, .call .int 3 [49], .leave, .call .lit 2 [44, 32],
+        .enter, .call .lit 1 [34], .call .chr 2 [120], .call .lit 1 [34], .leave, .call .lit 1 [41], .leave] := by
+  decide
+
+/-- `C16_read_at_position` is not vacuous: reading a word at position 2 of "a  bc d" (stale bytes behind the terminator) -/
+example : (⟨[97, 32, 32, 98, 99, 32, 100, 0, 120, 121]⟩ : Str).WF ∧
+    scanWord ⟨[97, 32, 32, 98, 99, 32, 100, 0, 120, 121]⟩ 2 = some ([98, 99], 5) ∧
+    scanWord ⟨[97, 32, 0, 98]⟩ 1 = none := by decide
 
 end Cello.Str
